@@ -136,6 +136,22 @@ def run(rng, tier, model_ok):
         x = Fraction(rng.randint(1, 99), rng.choice([1, 10]))
         add("%s %s to %s" % (gens_dec(x), a, b), si_oracle(x, na, nb))
         stats["ratios"] = stats.get("ratios", 0) + 1
+    # the same unit names on both sides with other exponents (ft/in to in/ft, ft^2/in to in^2/ft, hr/s to s/hr): equal sets of
+    # names do not make the factors cancel
+    for g in [g for g in groups if len(g) >= 2]:
+        for u1 in g:
+            for u2 in g:
+                if u1 == u2 or (tier == "quick" and rng.random() < 0.5):
+                    continue
+                for a, b in (("%s/%s" % (u1, u2), "%s/%s" % (u2, u1)), ("%s^2/%s" % (u1, u2), "%s^2/%s" % (u2, u1)),
+                             ("%s^3/%s^2" % (u1, u2), "%s*%s^0" % (u2, u1)), ("k%s*%s/%s^2" % (u1, u2, u2), "%s/k%s" % (u2, u2))):
+                    rr = read_units(V, [a, b])
+                    na, nb = rr.get(a), rr.get(b)
+                    if not na or not nb or V.dims(na) != V.dims(nb):
+                        continue
+                    x = Fraction(rng.randint(1, 99), rng.choice([1, 10]))
+                    add("%s %s to %s" % (gens_dec(x), a, b), si_oracle(x, na, nb))
+                    stats["same_names_other_powers"] = stats.get("same_names_other_powers", 0) + 1
     # prefixes: exactly the power of ten
     for e, word, name in prefix_words:
         na, nb = parsed.get(word), parsed.get(name)
